@@ -40,6 +40,7 @@ enum
     K_BADFRAME,    // caller B: a frame call with a buffer that is too small (the device reports an error)
     K_FAILALLOC,   // the next SET meets an allocation failure (1st or 2nd buffer), is refused, and is retried
     K_LIVESET,     // caller B, camera running with the frame trigger enabled: set again with another "enabled" value, or with the trigger disabled
+    K_OTHER,       // caller B: something happens on a second simulated camera of the same driver (set+start, trigger, stop, trigger+frame)
     K_COUNT
 };
 
@@ -49,6 +50,7 @@ const VhKindSpec kKinds[K_COUNT] = {
     { "STOP", 3, 3, 0, 0, 0 },           { "SLEEP", 2, 255, 0, 0, 0 },           { "GET", 2, 0, 0, 0, 0 },
     { "SCHED", 4, 255, 65535, 65535, 65535 }, { "BADFRAME", 1, 0, 0, 0, 0 },
     { "FAILALLOC", 1, 255, 0, 0, 0 },         { "LIVESET", 2, 255, 0, 0, 0 },
+    { "OTHER", 3, 255, 0, 0, 0 },
 };
 
 enum
@@ -79,6 +81,8 @@ enum
     CL_STALE_FAILURE,
     CL_LIVESET_SAME,
     CL_LIVESET_OFF,
+    CL_OTHER_CAMERA,
+    CL_OTHER_TRIGGERED,
 };
 
 const VhSpec kSpec = {
@@ -90,7 +94,7 @@ const VhSpec kSpec = {
     { "camera_random", "camera_sin", "camera_empty", "binning_gt1", "binning_rejected", "multibyte_type_odd_width", "shape_clamped",
       "frame_delivered", "two_configurations", "two_runs", "trigger_mode", "stop_while_frame_call_blocked", "triggers_interleaved_with_frames",
       "lockstep_trigger_frame", "frame_call_after_stop", "gap_in_hardware_ids", "pct_schedule", "preemptions", "f32", "failed_frame_call_then_restart", "edge_preemptions",
-      "set_refused_by_allocation_failure_then_retried", "frame_call_pending_across_restart", "frame_call_failed_across_restart", "live_set_other_enabled_value", "live_set_trigger_disabled", nullptr },
+      "set_refused_by_allocation_failure_then_retried", "frame_call_pending_across_restart", "frame_call_failed_across_restart", "live_set_other_enabled_value", "live_set_trigger_disabled", "second_camera_open", "second_camera_triggered_or_stopped_while_first_runs", nullptr },
     { "C17 non-trivial: >=1 frame fetched AND (binning > 1 or a multi-byte type with an odd width), or >=2 accepted configurations on one camera",
       "C18 non-trivial: >=2 runs on one camera, or a stop issued while a frame call was blocked, or >=3 triggers interleaved with frame calls, or a set on the running camera that changes only the trigger's enable value",
       nullptr },
@@ -135,6 +139,8 @@ struct Ctx
     std::vector<Run> runs;
     int started_runs = 0;
     bool a_blocked_in_frame = false;
+    Camera* other = nullptr;       // a second camera of the same driver: what happens there must not show on the first
+    bool other_running = false, other_trigger = false;
     size_t a_runs_at_call = 0;     // number of runs begun when caller A entered its current frame call
     bool a_stale_failure = false;  // a frame call of A that began before the latest start has failed (see c18_fail)
     int a_frames_in_run = 0, b_triggers_in_run = 0;
@@ -498,6 +504,76 @@ do_frame(Ctx& x, char who)
     free(buf);
 }
 
+// A second simulated camera, opened from the same driver, used by caller B only.  It is a bystander: no
+// oracle looks at its frames; the first camera's oracles go on unchanged, so anything the two instances
+// share (a trigger latch, a frame counter, a buffer) shows there.
+void
+do_other(Ctx& x, uint8_t a)
+{
+    if (x.c.ended)
+        return;
+    if (!x.other) {
+        DeviceIdentifier id;
+        memset(&id, 0, sizeof id);
+        id.kind = DeviceKind_Camera;
+        id.device_id = (uint8_t)((x.kind + 1 + ((a >> 4) & 1)) % 3);
+        x.other = camera_open(&g_dm, &id);
+        if (!x.other)
+            return;
+        x.c.cls(CL_OTHER_CAMERA);
+        x.c.trace("B: OPEN a second camera (kind %d)", (int)id.device_id);
+    }
+    const bool first_live = x.running && !x.runs.empty();
+    switch (a & 3) {
+        case 0:
+            if (!x.other_running) {
+                CameraProperties p;
+                memset(&p, 0, sizeof p);
+                p.binning = 1;
+                p.pixel_type = SampleType_u8;
+                p.shape.x = 4;
+                p.shape.y = 3;
+                p.exposure_time_us = 5000.f; // it sleeps between frames: virtual time moves on
+                x.other_trigger = (a >> 2) & 1;
+                p.input_triggers.frame_start.enable = x.other_trigger ? ((a >> 3) & 1 ? 0x80 : 1) : 0;
+                x.c.trace("B: second camera: SET 4x3 u8 trigger=%u, START", p.input_triggers.frame_start.enable);
+                if (camera_set(x.other, &p) == Device_Ok && camera_start(x.other) == Device_Ok)
+                    x.other_running = true;
+                break;
+            }
+            // fallthrough: already running
+        case 1:
+            x.c.trace("B: second camera: TRIGGER");
+            camera_execute_trigger(x.other);
+            if (first_live && x.other_running)
+                x.c.cls(CL_OTHER_TRIGGERED);
+            break;
+        case 2:
+            if (x.other_running) {
+                x.c.trace("B: second camera: STOP");
+                camera_stop(x.other);
+                x.other_running = false;
+                if (first_live)
+                    x.c.cls(CL_OTHER_TRIGGERED);
+            }
+            break;
+        case 3:
+            if (x.other_running) {
+                uint8_t buf[16];
+                size_t nb = sizeof buf;
+                ImageInfo info;
+                memset(&info, 0, sizeof info);
+                if (x.other_trigger)
+                    camera_execute_trigger(x.other);
+                DeviceStatusCode r = camera_get_frame(x.other, buf, &nb, &info);
+                x.c.trace("B: second camera: %sFRAME -> %s", x.other_trigger ? "TRIGGER, " : "", r == Device_Ok ? "Ok" : "Err");
+                if (r != Device_Ok)
+                    x.other_running = false; // the HAL has stopped it
+            }
+            break;
+    }
+}
+
 void
 do_trigger(Ctx& x)
 {
@@ -678,6 +754,7 @@ actor_b(void*)
                 x.model.input_triggers.frame_start.enable = v;
                 break;
             }
+            case K_OTHER: do_other(x, op.t.a); break;
             case K_FAILALLOC:
                 x.pending_alloc_fail = 1 + (op.t.a & 1);
                 x.c.trace("B: (the next SET meets an allocation failure at its buffer #%d)", x.pending_alloc_fail);
@@ -686,6 +763,11 @@ actor_b(void*)
     }
     if (!x.c.ended)
         do_stop(x, x.graceful_end);
+    if (!x.c.ended && x.other && x.other_running) {
+        x.c.trace("B: second camera: STOP");
+        camera_stop(x.other);
+        x.other_running = false;
+    }
     x.doneB = true;
     if (x.fa >= 0)
         vsim::unpark(x.fa);
@@ -873,6 +955,8 @@ vh_run(const VhTok* tape, size_t n, VhReport* rep)
             if (!x.c.ended) {
                 x.c.trace("CLOSE");
                 camera_close(x.cam); // runs in the main context: nothing may block here
+                if (x.other)
+                    camera_close(x.other);
             }
         }
     }
